@@ -74,6 +74,7 @@ class C11(Prop):
         "NV.C11.sim_tickCore",
         "NV.C11.sim_applyRp",
         "NV.C11.sim_morePasses",
+        "NV.C11.sim_hookStep",
         "NV.C11.roundRef_cg",
         "NV.C11.tick_cg_none",
         "NV.C11.searchLoop_eq",
@@ -146,33 +147,38 @@ class C11(Prop):
                  "decisive statements of set_heart_beat / f_set_heart_beat / call_heart_beat / query_heart_beat / error_handler / "
                  "destruct_object / reload_object / clone_object into Lean definitions the model uses, bridging lemmas as "
                  "obligations) + model/implementation correspondence")
-    level_text = ("Lean 4 theorems about an executable model of call_heart_beat / set_heart_beat / query_heart_beat / "
-                  "error_handler (catch branch and switch-off) / destruct_object (inventory hooks incl. errors in them) / "
-                  "clone_object / reload_object / replace_program for all populations, heart_beat scripts, timer_flags and tick "
-                  "counts; the model is tied to the source by definitions regenerated from the clang AST on every run (round "
-                  "frame with the timer_flags guard, index compensation, search loop, memmove, tick test/reset, statements around "
-                  "the call, clamp, retune, growth, argument saturation, loop exit, while condition, error_handler block and "
-                  "order, destruct / reload / clone order - the model uses them, bridging lemmas are obligations), regenerated "
-                  "constants, and by running the real code (hook verif_tick) and the model on the same generated histories; the "
-                  "Lean specification oracle (incl. the clause 'every heart_beat starts with a clean command_giver / eval cost') "
-                  "judges every implementation trace")
+    level_text = ("Lean 4 theorems about an executable model of one pass of the backend() loop (start-up call, "
+                  "remove_destructed_objects / replace_programs, call_heart_beat, further passes after an error), set_heart_beat / "
+                  "query_heart_beat / error_handler (restrict_destruct reset, catch branch, switch-off) / destruct_object "
+                  "(inventory hooks incl. errors, self-destructing and departing items, restrict_destruct) / clone_object / "
+                  "reload_object / replace_program for all populations, heart_beat scripts, timer_flags and tick counts; the "
+                  "model is tied to the source by definitions regenerated from the clang AST on every run (round frame with the "
+                  "timer_flags guard, index compensation, search loop, memmove, tick test/reset, statements around the call, "
+                  "clamp, retune, growth, argument saturation, loop exit, while condition, error_handler block and order, "
+                  "destruct / reload / clone / backend-loop order; constants appear symbolically - the model uses them, bridging "
+                  "lemmas are obligations) and by running the REAL backend() loop (cycle hook; poll point and "
+                  "remove_destructed_objects wrapped at link level) and the model on the same generated histories; the Lean "
+                  "specification oracle (incl. 'every heart_beat starts with a clean command_giver / eval cost' and 'no "
+                  "command_giver is left behind after a pass') judges every implementation trace")
     level_note = ("trusted: Lean kernel; extract.py + props/c11_extract.py (symbolic execution of the listed statements, grammar "
                   "in its header); the correspondence harness (differential, only the generated histories); "
-                  "heart_beat bodies are oracle scripts; the timer thread is an explicit 'flag' operation; the top of the "
-                  "backend loop (remove_destructed_objects / replace_programs, eval_cost reset) is reproduced by the harness; "
-                  "command_giver after a round / after restore_context is modelled but not observed")
-    rule = ("cases = corpus + boundary list + seeded random histories: populations of 1..6 clones of two blueprints "
-            "(with / without heart_beat function), some living, some carrying others; per-beat and one-shot heart_beat scripts "
-            "of set_heart_beat(self/other, 0/1/n/out-of-range), query, destruct(self/other, + error afterwards), clone(+enable), "
-            "reload_object(self/other), replace_program, error, caught error, enable_commands, eval-cost use, timer-fired and "
-            "heart_beats(); move_or_destruct hooks incl. failing ones; the same operations between ticks; timer_flags changes; "
-            "3..25 ticks; a case is non-trivial when its trace has a beat; distinct = distinct canonical implementation trace")
+                  "heart_beat bodies are oracle scripts; the timer thread is an explicit 'flag' operation (the timer tick itself "
+                  "is delivered at the poll point the way heartbeat_timer_callback does); backend() is entered anew for every "
+                  "tick of a case (its start-up call_heart_beat runs with timer_flags = 0 and is part of the model); at most "
+                  "maxPass = 5 further rounds are served inside one tick command (harness rule, mirrored)")
+    rule = ("cases = corpus + boundary list + seeded random histories: populations of 1..6 (sometimes 35..42, boundary: > 128) "
+            "clones of two blueprints (with / without heart_beat function), some living, some carrying others; per-beat and "
+            "one-shot heart_beat scripts of set_heart_beat(self/other, 0/1/n/out-of-range), query, destruct(self/other, + error "
+            "afterwards), clone(+enable), reload_object(self/other), replace_program, move_object, error, caught error, "
+            "enable_commands, eval-cost use, timer-fired and heart_beats(); move_or_destruct hooks incl. failing, self-destructing, "
+            "departing and illegally destructing ones; the same operations between ticks; timer_flags changes; 3..25 ticks; a "
+            "case is non-trivial when its trace has a beat; distinct = distinct canonical implementation trace")
     not_covered = ["the direction of set_heart_beat's search loop is proved unobservable (entries unique per object) instead of being modelled",
                    "perc_hb_probes / num_hb_calls statistics, heart_beat_status()",
                    "truncation of a round by the real timer thread is an explicit scripted operation (the thread is C19)",
-                   "command_giver after a completed / aborted round (restore_context) is tied by a shape obligation only; current_interactive is not modelled",
+                   "current_interactive; user commands / I/O in the same pass of the backend loop (C09, C12)",
                    "timer_flags bits RESET / CALLOUT run look_for_objects_to_swap / call_out in the harness but nothing is pending there (C10 covers call_out)",
-                   "restrict_destruct refusals, inventory items that move away in move_or_destruct, nested inventories",
+                   "nested inventories (items carrying items); 'errR only inside a hook' is not an oracle clause (a left-over restrict_destruct is observed directly by the harness instead)",
                    "wrap of the short countdown of an object without heart_beat function (needs 32769 ticks, not observable: such an object is never called)",
                    "errors in the master's error handler (in_error re-entry)"]
 
